@@ -141,13 +141,19 @@ func runSessions(g *Gen, sessions int, stats map[string]interface{}) {
 		for b := 0; b < nb; b++ {
 			k := g.r.Pick(1, 1, 1, 2, 3, 4)
 			for i := 0; i < k; i++ {
-				if withContracts && g.r.Chance(3, 5) {
+				switch {
+				case g.r.Chance(1, 7):
+					g.lockTx()
+				case withContracts && g.r.Chance(3, 5):
 					g.contractTx(i == 0)
-				} else {
+				default:
 					g.operatorTx()
 				}
 			}
 			res := w.Exec()
+			if g.r.Chance(1, 6) {
+				g.refund()
+			}
 			blocks++
 			txs += k
 			for _, c := range res.Statuses {
@@ -261,8 +267,23 @@ func replayOne(w *World, line string) {
 			w.Code(parseAddr(t[1]), parseScript(t[2]))
 		case "amt":
 			w.Amt(unhexStr(t[1]))
+		case "refund":
+			var l [][2]interface{}
+			for i := 2; i+1 < len(t); i += 2 {
+				v, _ := new(big.Int).SetString(t[i+1], 10)
+				l = append(l, [2]interface{}{parseAddr(t[i]), v})
+			}
+			w.Refund(l)
 		case "tx":
 			switch t[1] {
+			case "lock":
+				n, _ := strconv.ParseUint(t[3], 10, 64)
+				g := &Gen{r: hx.NewRng(uint64(len(line)) + n), w: w}
+				spoil := 0
+				if t[4] == "0" {
+					spoil = 2
+				}
+				w.QueueLock(g, parseAddr(t[2]), n, true, spoil)
 			case "op":
 				src := parseAddr(t[2])
 				if t[3] == "0" {
